@@ -37,6 +37,8 @@ ASDICT = {
     "nu": ["name", "uids"], "nc": ["name", "cmdline"], "mm": ["memory_info", "memory_full_info"],
     "all": None, "empty": [], "str": "name", "bad": ["name", "nope"], "gen": "GEN", "tup": ("cpu_times", "gids"),
     "set": {"num_ctx_switches"},
+    # falsy things that are no collection of names: rejected like any other non-collection, before anything is queried
+    "estr": "", "zero": 0, "edict": {},
 }
 
 
@@ -46,7 +48,7 @@ class Cfg:
         self.thorough = thorough
         self.methods = (list(METHODS) if thorough else ["name", "cpu_times", "ppid", "uids", "gids", "memory_info",
                                                          "memory_full_info", "memory_maps", "num_ctx_switches"]) + ["cmdline"]
-        self.asdict = list(ASDICT) if thorough else ["nu", "nc", "mm", "all", "str", "bad", "empty", "tup", "gen"]
+        self.asdict = list(ASDICT) if thorough else ["nu", "nc", "mm", "all", "str", "bad", "empty", "tup", "gen", "estr", "zero"]
         self.max_nest = 2
 
 
@@ -356,7 +358,7 @@ class Exec:
         out = outcome(self.obj.as_dict, attrs=attrs, ad_value="AD")
         reads = self.count_reads(log0)
         nacc = len(self.w.log) - log0
-        if a in ("str", "gen", "bad"):
+        if a in ("str", "gen", "bad", "estr", "zero", "edict"):
             want = "ValueError" if a == "bad" else "TypeError"
             if not (out[0] == "exc" and out[1] == want):
                 self.viol("as_dict-validation:%s" % a, "as_dict(%r) -> %r, expected %s" % (ASDICT[a], freeze(out), want))
